@@ -55,6 +55,24 @@ Theorem C16_fast_fresh : forall decode is_fast, db_pgn_ok decode ->
 Proof. exact c16_fast_fresh. Qed.
 Print Assumptions C16_fast_fresh.
 
+(* ... and that common result is the decode of the message's payload: a complete in-order fast-packet message (first
+   frame: counter sq, frame 0, announced length `total`, data d0; then frames 1..n carrying `rest`, the last one
+   possibly padded) with a fresh sequence counter returns nothing until its last frame and then exactly what
+   _call_decode_function returns on the first `total` bytes of the concatenated data — after ANY history *)
+Theorem C16_fast_inorder : forall decode is_fast c st p s d w i sq total d0 rest,
+  p <> CLAIM -> is_fast p = Ok (Some true) -> 0 <= sq < 8 ->
+  sq <> rseq (rec_at st (p, s, d)) ->
+  prefilter c st (mk_call p s d w []) = PreGo i ->
+  zlen rest < 31 ->
+  (rest <> [] -> total_len (d0 :: removelast rest) < total) ->
+  total <= total_len (d0 :: rest) ->
+  map snd (run decode is_fast c st
+             (mk_call p s d w ((sq * 32) :: total :: d0) :: later_calls p s d w sq 1 rest)) =
+  map (fun _ => Ok None) (removelast (d0 :: rest)) ++
+    [snd (call_decode decode c (srcmap st) p s d (le_int (firstn (Z.to_nat total) (concat (d0 :: rest)))) i)].
+Proof. exact c16_fast_inorder. Qed.
+Print Assumptions C16_fast_inorder.
+
 (* a decoder that holds no record for the key (e.g. a new one) is fresh for every first frame *)
 Theorem C16_fresh_decoder : forall st cl b0 total data,
   c_data cl = b0 :: total :: data -> b0 mod 32 = 0 -> klookup (key_of cl) (reasm st) = None -> fresh_first st cl.
